@@ -473,6 +473,26 @@ def rule_f(R, ctx, rid="C02.f"):
         a = pv.arg(cs, 1)
         ok = field_path(recv)[-1:] == ["skips"] and term_has_call(a, "yrs::block::Block::range") and root_name(simp(simp_deep(a)[2][0]) if simp_deep(a)[0] == "call" else a) == "block"
         R.ob(rid, ps, site, ok, "skips.remove_range(%s)" % sshow(a), cs.loc())
+    # every integrated Skip is entered in the gap table: is_missing answers from `skips`, so a Skip block that is pushed
+    # without its range recorded makes its clocks look present
+    sf = Y.fn(TXN + "::integrate_skip")
+    sv = FnView(sf)
+    cfg = sf.cfg()
+    pushes = sf.calls_to("yrs::block_store::BlockStore::push")
+    R.floor(rid, "BlockStore::push in integrate_skip", len(pushes), 1)
+    ins = [c for c in sf.calls_to("yrs::id_set::IdSet::insert")
+           if field_path(simp_deep(sv.arg(c, 0)))[-1:] == ["skips"]]
+    for cs, site in ordinal_sites(pushes):
+        ok = False
+        why = "no skips.insert on every path to the push"
+        for c in ins:
+            idt, ln = simp_deep(sv.arg(c, 1)), simp_deep(sv.arg(c, 2))
+            rng_ok = idt[0] == "call" and "BlockRange::id" in idt[1] and root_name(simp_deep(idt[2][0])) == "skip" \
+                and field_path(ln)[-1:] == ["len"] and root_name(ln) == "skip"
+            if cfg.dominates(c.bb, cs.bb) and cfg.postdominates(cs.bb, c.bb) and cfg.postdominates(c.bb, 0) and rng_ok:
+                ok = True
+                why = "skips.insert(%s, %s) on every path, paired with the push" % (sshow(idt), sshow(ln))
+        R.ob(rid, sf, site + ":gap-recorded", ok, why, cs.loc())
 
 
 def _norm(t):
